@@ -212,11 +212,10 @@ def fuzzy0(p):
 
 
 class Oracle:
-    def __init__(self, env, quirks=(), ext=()):
+    def __init__(self, env, ext=()):
         self.env = env
         self.ext = {k: float(v) for k, v in ext}
         self.n = env["n"]
-        self.quirks = set(quirks)   # documented-vs-coded discrepancies to leave unjudged (used by classify only)
         self.divzero = False      # a division by zero happened: the evaluator may raise ZeroDivisionError instead of giving NaN
         self.undef = False        # an aggregate of no valid value: anything goes
 
@@ -267,9 +266,8 @@ class Oracle:
             e += ETA
         return mk(r, e)
 
-    def div(self, p, q, scalar=None):
-        """x / y; `scalar` says which operand is a number in the expression ("right": feature/number,
-        "left": number/feature) - only used to leave the reciprocal-overflow discrepancy unjudged (quirk)"""
+    def div(self, p, q):
+        """x / y (feature/feature, feature/number and number/feature alike: one correctly rounded quotient)"""
         if q.any or fuzzy0(q):
             self.divzero = True               # zero up to rounding: NaN, a huge value or ZeroDivisionError
             return ANYV
@@ -281,8 +279,6 @@ class Oracle:
             return ANYV
         if isnan(x) or isnan(y):
             return V(NAN)
-        if "reciprocal" in self.quirks and scalar and isinf(1.0 / y):
-            return ANYV
         if isinf(x) or isinf(y):
             return V(x / y)
         r = x / y
@@ -349,7 +345,7 @@ class Oracle:
     def lift(self, f, a, b):
         return [f(p, q) for p, q in zip(a, b)]
 
-    def binop(self, o, a, b, scalar=None):
+    def binop(self, o, a, b):
         if o == "+":
             return self.lift(self.add, a, b)
         if o == "-":
@@ -357,7 +353,7 @@ class Oracle:
         if o == "*":
             return self.lift(self.mul, a, b)
         if o == "/":
-            return self.lift(lambda p, q: self.div(p, q, scalar), a, b)
+            return self.lift(self.div, a, b)
         if o == "^":
             return self.lift(self.power, a, b)
         if o in "<>":
@@ -487,8 +483,6 @@ class Oracle:
             best = min(p.v for p in vals) if lo else max(p.v for p in vals)
             if f in ("MIN", "MAX"):
                 return V(best, max(p.err for p in vals))
-            if "arg-start" in self.quirks and best == (INF if lo else -INF):
-                return ANYV
             first = next(i for i, p in enumerate(a) if p.v == best)
             eb = a[first].err
             for i, p in enumerate(a):
@@ -536,19 +530,16 @@ class Oracle:
             return self.fn(t[1], self.ev(t[2]))
         if k == "prime":
             return self.binop("/", self.fn("D", self.col(t[1])), self.fn("D", self.col("t")))
-        scalar = None
-        if t[1] == "/":
-            scalar = "right" if not names_of(t[3]) else ("left" if not names_of(t[2]) else None)
-        return self.binop(t[1], self.ev(t[2]), self.ev(t[3]), scalar)
+        return self.binop(t[1], self.ev(t[2]), self.ev(t[3]))
 
 
-def pre_env(case, quirks=()):
+def pre_env(case):
     """the track as the statements run BEFORE the judged one leave it (columns become lists of V): the property applied
     to each earlier statement ('lhs=e' stores the value under lhs, nothing else changes; without '=' nothing changes).
     None when one of them has no value in ordinary arithmetic or may raise."""
     env = case["env"]
     for pre in case.get("pre", ()):
-        o = Oracle(env, quirks, case.get("ext", ()))
+        o = Oracle(env, case.get("ext", ()))
         try:
             vals = o.ev(pre["tree"])
         except (OutOfDomain, KeyError):
@@ -572,12 +563,12 @@ def pre_env(case, quirks=()):
     return env
 
 
-def oracle(case, quirks=()):
+def oracle(case):
     """(values | None when out of domain, divzero, undef)"""
-    env = pre_env(case, quirks)
+    env = pre_env(case)
     if env is None:
         return None, False, False
-    o = Oracle(env, quirks, case.get("ext", ()))
+    o = Oracle(env, case.get("ext", ()))
     try:
         vals = o.ev(case["tree"])
     except (OutOfDomain, KeyError):
@@ -664,6 +655,12 @@ WIDE_LITS = ["0.1", "1000000", "9007199254740993", "1234567890123456789012345678
              "1e5", "2E3", "2.5e300", "1e400", ".5e1", "5.e2", "1_0e1_0", "3e0", "0e99", "inf", "nan", "Infinity", "iNf"]
 
 
+# longitudes / latitudes of a geographic track: ordinary ones, the antimeridian from both sides, the 0..360 convention
+GEO_STARTS = [178.75, 179.0, 179.5, -181.0, -180.5, 358.5, 359.25, -179.75, 2.25, -0.5]
+GEO_LONS = [178.75, 179.25, 179.75, 180.0, 180.25, 181.5, -179.5, -180.0, -180.25, -181.5, 359.0, 360.0, 360.5, 2.25, -4.75, 0.0, 90.0, -90.0]
+GEO_LATS = [-17.5, 48.85, 0.0, 89.5, -89.5, 90.0, -90.0, 45.0, 1.0]
+
+
 def wide_value(rng, special=True):
     r = rng.random()
     if r < 0.25:
@@ -705,7 +702,7 @@ class P(Prop):
         (M, "TV.C02.makeRPN_chars_show", "T2': character-level makeRPN (the definition the driver runs, fuel = string length) returns the postfix form of every printed tree with plain atoms"),
         (M, "TV.C02.operate_string_value", "T3': from the rewritten string '#output=e' on (makeRPN on characters, __double_prime, stack machine, fetch, purge) operate returns the tree semantics and leaves the track as it was"),
         (M, "TV.C02.operate_string_tokens", "string -> tokens: on the rewritten string of any statement 'lhs=e' with plain names operate does what it does on the postfix token list, so T3a-T3d apply to strings"),
-        (M, "TV.C02.tree_semantics_pointwise", "T5: under the laws x+s=s+x, x*s=s*x, x*(1/s)=x/s, (1/x)*s=s/x the evaluator's tree semantics (literal folding, s+/sr- tables) equals evaluation observation by observation with numbers as constant vectors"),
+        (M, "TV.C02.tree_semantics_pointwise", "T5: under the two laws x+s=s+x, x*s=s*x (true of IEEE doubles) the evaluator's tree semantics (literal folding, s+/sr- tables; a/number and number/a are single divisions since fix 5676890) equals evaluation observation by observation with numbers as constant vectors"),
         (M, "TV.C02.operate_string_pointwise", "end to end on the model: operate on the rewritten string '#output=e' returns the pointwise value of the tree and leaves the track unchanged"),
         (M, "TV.C02.operator_objects_agree", "T4: operator objects applied directly return the tree semantics of the one-node expression (a.b, a.number, number.a, f{a}) for the 7 binary operators, their 14 scalar forms, the 12 pointwise/void functions and the 12 aggregates"),
         (M, "TV.C02.evalRPN_postfix_error", "T6: when the tree semantics is an error (zero division by a number, 0**negative, complex/overflowing power, SQRT of a negative, EXP overflow, function of a number-valued sub-expression) the stack machine raises the same error, having added temporaries only"),
@@ -728,32 +725,42 @@ class P(Prop):
         (M, "TV.C02.operate_no_externals", "Track.operate(expr, {}) (the machine reading the dictionary of externals) is Track.operate(expr)"),
         (M, "TV.C02.getitem_is_operate", "front end: Track[expr] is Track.operate(expr) as soon as the stripped string contains one of + - / * ^ > < ( ) = ' { (the brace since fix 396f8f9)"),
         (M, "TV.C02.operate_source_bare_minus", "a bare unary minus at the start, after '=', '(' or '{' is the parenthesised '(0-...)' form (one per application)"),
+        (M, "TV.C02.aggregate_argmin_argmax", "T9: Argmin / Argmax as coded (fix b728412) return the index of the FIRST observation holding the value Min / Max returns, as soon as the vector holds one number, +-inf included (ARGMIN{[nan, inf, inf]} = 1) - the documented min {t | x(t) = min(x)}"),
+        (M, "TV.C02.aggregate_arg_none", "T9': on an empty or all-NaN vector (the only case T9 leaves out; no documented index) no index is taken and Argmin / Argmax return 0"),
+        (M, "TV.C02.finite_differences", "T10: D, I, D2 as coded are the documented recurrences y(0)=NaN, y(t)=x(t)-x(t-1); y(0)=0, y(t)=y(t-1)+x(t); y(t)=x(t+1)-2x(t)+x(t-1) with NaN at both ends; one value per observation (no law of arithmetic used)"),
+        (M, "TV.C02.operate_source_prime", "T11: from the source string, the ' shorthand: operate on 'lhs=e' / 'e' whose names may end with a quote does what it does on the postfix tokens of the tree with every a' replaced by D{a}/D{t} (__double_prime: two passes)"),
+        (M, "TV.C02.operate_source_sign_pair", "T12: a sign directly after a binary + or - ('a+-b', 'a--b', 'a++b', 'a-+b'): typing two signs in place of the binary sign they multiply to does not change what operate does (one pair per application)"),
+        (M, "TV.C02.operate_source_prime_value", "T11': operate(src e) with the ' shorthand returns the tree semantics of the unprimed tree at every observation and leaves the track exactly as it was"),
     ]
     partial = []
     open_statements = [
-        "floating point: the laws of T5 (x*(1/s)=x/s, (1/x)*s=s/x) hold in exact arithmetic (shown for rationals with NaN) but only up to rounding for IEEE doubles - and not at all when the reciprocal overflows (subnormal divisor, class scalar-division-reciprocal-overflow); agreement of the computed doubles with ordinary arithmetic is decided by the transfer check against the independent Python oracle (IEEE evaluation of the documented definitions with a running error bound, relative tolerance 1e-9 at every magnitude)",
-        "the definitions of the functions (I D D2 ABS SQRT LOG DIODE SIGN EXP COS SIN TAN, SUM AVG VAR STD MSE RMSE MAD MIN MAX MEDIAN ARGMIN ARGMAX) are taken as coded in both denoteM and denote; their agreement with the documented formulas is checked by the Python oracle in the transfer check, not proved - except MIN / MAX (T8: the minimum / maximum of the non-NaN values at every magnitude)",
-        "source strings (T7): several bare unary minuses in one string, a sign directly after + or - ('a+-b', 'a--b'), the ' shorthand and names ending with '.' are outside the proved grammar (covered by the correspondence streams expr/str); error propagation (T6) excludes unbound names, unknown function names and a function applied to a bare number token, where the machine raises another error than the tree semantics (counter-examples in Lemmas/ExprErr.lean)",
+        "floating point: the two laws T5 still needs (x+s=s+x, x*s=s*x) are stated as hypotheses (shown for rationals with NaN; they hold of IEEE doubles, but Lean's Float is opaque); the reciprocal laws x*(1/s)=x/s, (1/x)*s=s/x are no longer needed since fix 5676890. T5 says that the evaluator performs the documented operations observation by observation; how far the computed doubles are from the real-number value of the expression (rounding) is decided by the transfer check against the independent Python oracle (IEEE evaluation of the documented definitions with a running error bound, relative tolerance 1e-9 at every magnitude)",
+        "the definitions of the functions (I D D2 ABS SQRT LOG DIODE SIGN EXP COS SIN TAN, SUM AVG VAR STD MSE RMSE MAD MIN MAX MEDIAN ARGMIN ARGMAX) are taken as coded in both denoteM and denote; their agreement with the documented formulas is checked by the Python oracle in the transfer check, not proved - except MIN / MAX (T8: the minimum / maximum of the non-NaN values at every magnitude), ARGMIN / ARGMAX (T9: the first index holding that extremum whenever the vector holds a number; T9': index 0 on an empty / all-NaN vector) and D, I, D2 (T10: the documented recurrences, index by index)",
+        "source strings (T7): several bare unary minuses or several doubled signs in one string (T12 and the bare-minus theorem are stated for one rewriting per application; they do not compose, the intermediate string not being a printed tree) and names ending with '.' are outside the proved grammar (covered by the correspondence streams expr/str; the ' shorthand is proved since T11, for names that do not start with a quote; a sign directly after a binary + or - since T12); error propagation (T6) excludes unbound names, unknown function names and a function applied to a bare number token, where the machine raises another error than the tree semantics (counter-examples in Lemmas/ExprErr.lean)",
     ]
     modelled = ("Track.__evaluate (replace chain, __specialOpChar, __convertReflexOperator, __unaryOp, f( -> f@( loops, #output prefix), "
                 "utils.makeRPN at character level, Track.__prime/__double_prime, Track.__evaluateRPN, Track.__applyOperation, the purge of "
                 "Track.operate(str), create/update/remove/getAnalyticalFeature and addListToAF as an insertion-ordered name->column table, "
                 "operators Adder Substracter Multiplier Divider Power Above Below, ScalarAdder ScalarSubstracter ScalarRevSubstracter "
-                "ScalarMuliplier ScalarDivider ScalarRevDivider(Inverser) ScalarPower ScalarRevPower ScalarAbove/Below/RevAbove/RevBelow, "
+                "ScalarMuliplier ScalarDivider ScalarRevDivider (single divisions, coded like the other scalar operators: fixes 5676890, 2dd86ce) ScalarPower ScalarRevPower ScalarAbove/Below/RevAbove/RevBelow, "
                 "Integrator Differentiator SecondOrderFiniteDiff Rectifier Sqrt Log (with its track[out]=temp storing and None result) Diode Sign "
-                "Exp Cos Sin Tan (through Apply), Sum Averager Variance StdDev Mse Rmse Mad Min Max Median Argmin Argmax; Track.operate(operator, ...) "
+                "Exp Cos Sin Tan (through Apply), Sum Averager Variance StdDev Mse Rmse Mad Min Max Median Argmin Argmax (index None until a value is taken, fix b728412); Track.operate(operator, ...) "
                 "with the default output name; Track.__getitem__ with a string (expression or feature name); Track.operate(expression, externals) "
-                "(__evaluateRPN substituting the dictionary's values). Not modelled (outside the property's operator list + - * / ^ < >): % (Modulo, s%, sr%), "
+                "(__evaluateRPN substituting the dictionary's values); the positions behind x, y, z are plain slots (getX / setX ... of ENUCoords, GeoCoords, "
+                "ECEFCoords alike: the model has one column per coordinate and is compared with tracks of the three classes). Not modelled (outside the property's operator list + - * / ^ < >): % (Modulo, s%, sr%), "
                 ".* / ! (Filter), >> << (ShiftCircular, s& s$); their strings are compared up to the parser only (stream str)")
     trusted = ["float(), str.replace/split/strip, numpy.argsort (NaN last), math.sqrt, float ** float are modelled by contract",
                "the feature table is modelled as an insertion-ordered association list (its index-remapping representation is C01's subject)"]
-    rule = ("expression trees over names {a,b,x,y,z,t,idx,speed_2}, literals {0,1,2,0.5,(3,4,0.25,10 in the random stream)} and decimal literals reaching the "
+    rule = ("expression trees over names {a,b,x,y,z,t,idx,speed_2 - in 30 % of the random cases the third feature goes under another legitimate name: ax, t2, Dx, idx_1, "
+            "AVGs, x_y, inf_, e, pi, E1, I0, yaw, xt, SUMa, n}, literals {0,1,2,0.5,(3,4,0.25,10 in the random stream)} and decimal literals reaching the "
             "ends of the double range (2.5e-309 ... 1e308, 2**53+1, 30-digit integers, an infinite one), the other tokens float() reads "
             "(1e5, 2.5E3, .5e1, 1_0e1_0, inf, nan, Infinity), operators + - * / ^ < >, "
             "unary minus (parenthesised form and the bare positions: start, after =, ( and {, after + or -), redundant parentheses, the "
             "functions I D D2 ABS SQRT LOG DIODE SIGN EXP COS SIN TAN, SUM AVG VAR STD MSE RMSE MAD MIN MAX MEDIAN ARGMIN ARGMAX and the ' shorthand; "
             "all trees of depth <= 2 (x lhs none/new/existing/coordinate), depth <= 3 over a small alphabet, random to depth 6; reflexive forms a+=e; "
-            "tracks of 1..5 observations of three kinds: small values with 0, negatives, equal values, NaN; 'scaled' = a small pattern times one "
+            "tracks of 1..5 observations whose positions are ENUCoords (60 %), GeoCoords (30 %, half of them with longitudes along / across the antimeridian, "
+            "kept continuous past +-180 or in the 0..360 convention) or ECEFCoords (10 %), a quarter of them with one or two features created and "
+            "removed again before the judged call (feature table with remapped indices), of three kinds: small values with 0, negatives, equal values, NaN; 'scaled' = a small pattern times one "
             "magnitude anywhere between 5e-324 and 1.8e308 (subnormals, below machine epsilon, beyond 2**53, near overflow); 'wide' = independent "
             "values over the whole double range with +-0.0, +-inf, NaN; optional spaces and ** for ^; entry points Track.operate(expr), Track.op(expr), "
             "Track[expr] (function calls alone included, fix 396f8f9; a number alone is a feature name for that front end and is not sent through it), Track.operate(expr, {name: value}) with numbers given by "
@@ -773,18 +780,45 @@ class P(Prop):
         from tracklib.core.track import Track
         from tracklib.core.obs import Obs
         from tracklib.core.obs_time import ObsTime
-        from tracklib.core.obs_coords import ENUCoords
+        from tracklib.core.obs_coords import ENUCoords, GeoCoords, ECEFCoords
         from tracklib.core.operators import Operator
         from tracklib.core import utils
         self.Track, self.Obs, self.ObsTime, self.ENU, self.Operator, self.utils = Track, Obs, ObsTime, ENUCoords, Operator, utils
+        # the class of the observations' positions: x, y, z are (E, N, U), (lon, lat, hgt) or (X, Y, Z); the property
+        # speaks of "the coordinate" whatever the class, and an expression reads / writes it through getX / setX ...
+        self.COORDS = {"ENU": ENUCoords, "Geo": GeoCoords, "ECEF": ECEFCoords}
 
     def mk_track(self, env):
         t = self.Track()
+        cls = self.COORDS[env.get("coords", "ENU")]
         for i in range(env["n"]):
-            t.addObs(self.Obs(self.ENU(env["x"][i], env["y"][i], env["z"][i]), self.ObsTime.readUnixTime(env["t"][i])))
-        for k, c in env["feats"]:
+            t.addObs(self.Obs(cls(env["x"][i], env["y"][i], env["z"][i]), self.ObsTime.readUnixTime(env["t"][i])))
+        # "ghost": features [position, name, column] that were created (at that position of the creation order) and
+        # removed again before the judged call: the table the evaluator works on is then one whose indices have been
+        # remapped by earlier deletions (state left by earlier calls); model and oracle see env["feats"] only
+        ghosts = env.get("ghost", ())
+        for i, (k, c) in enumerate(env["feats"]):
+            for pos, gk, gc in ghosts:
+                if pos == i:
+                    t.createAnalyticalFeature(gk, list(gc))
             t.createAnalyticalFeature(k, list(c))
+        for pos, gk, gc in ghosts:
+            if pos >= len(env["feats"]):
+                t.createAnalyticalFeature(gk, list(gc))
+        for pos, gk, gc in ghosts:
+            t.removeAnalyticalFeature(gk)
         return t
+
+    @staticmethod
+    def canon_seq(ret):
+        """the values returned 'at every observation': a list in the code; any sequence of numbers (tuple, array) is read
+        the same way - the property speaks of the values, not of the container"""
+        if isinstance(ret, (str, bytes, dict)):
+            return "obj"
+        try:
+            return canon_list(list(ret))
+        except TypeError:
+            return "obj"
 
     def state(self, t):
         names = t.getListAnalyticalFeatures()
@@ -841,10 +875,28 @@ class P(Prop):
             ts.append(float(cur))
             cur += st
         wide = style in ("scaled", "wide")
-        return {"n": n, "x": vec() if not easy else [float(i + 1) for i in range(n)],
-                "y": vec() if wide and rng.random() < 0.5 else [rng.choice([0.0, 1.0, -3.0, 2.5]) for _ in range(n)],
-                "z": [rng.choice([0.0, 10.0, -1.0]) for _ in range(n)],
-                "t": ts, "feats": [["a", vec()], ["b", vec()], ["speed_2", vec()]]}
+        env = {"n": n, "x": vec() if not easy else [float(i + 1) for i in range(n)],
+               "y": vec() if wide and rng.random() < 0.5 else [rng.choice([0.0, 1.0, -3.0, 2.5]) for _ in range(n)],
+               "z": [rng.choice([0.0, 10.0, -1.0]) for _ in range(n)],
+               "t": ts, "feats": [["a", vec()], ["b", vec()], ["speed_2", vec()]]}
+        # the class of the positions: local (E, N, U) - the default -, geographic (lon, lat, hgt) or geocentric (X, Y, Z).
+        # On a geographic track x is a longitude: half of them run along / across the antimeridian (kept continuous
+        # past +-180, or in the 0..360 convention) so that x=<expr> has values on both sides of +-180, +-360
+        r = rng.random()
+        if r >= 0.6:
+            env["coords"] = "Geo" if r < 0.9 else "ECEF"
+            if env["coords"] == "Geo" and not wide and rng.random() < 0.6:
+                if rng.random() < 0.5:
+                    lon0, step = rng.choice(GEO_STARTS), rng.choice([0.5, 0.25, -0.5, 1.0])
+                    env["x"] = [lon0 + step * i for i in range(n)]
+                else:
+                    env["x"] = [rng.choice(GEO_LONS) for _ in range(n)]
+                env["y"] = [rng.choice(GEO_LATS) for _ in range(n)]
+        if rng.random() < 0.25:
+            # one or two features created and removed again before the judged call (indices of the table remapped)
+            env["ghost"] = [[rng.randrange(4), gk, [rng.choice([7.0, -7.0, 0.0, NAN]) for _ in range(n)]]
+                            for gk in rng.sample(["g", "zz", "a2"], rng.choice([1, 1, 2]))]
+        return env
 
     def fix_env(self, env):
         """NaN is not a coordinate"""
@@ -888,6 +940,23 @@ class P(Prop):
         if r < 0.80:
             return ["par", self.rand_tree(rng, d - 1, wide)]
         return ["call", rng.choice(FUNCS), self.rand_tree(rng, d - 1, wide)]
+
+    # other legitimate names for the third feature: with a reserved name as a prefix / suffix, a function name inside, the
+    # names of mathematical constants, words float() almost reads
+    ALT_NAMES = ["ax", "t2", "Dx", "idx_1", "AVGs", "x_y", "inf_", "e", "pi", "E1", "I0", "yaw", "xt", "SUMa", "n"]
+
+    def rename(self, t, old, new):
+        if t[0] in ("var", "prime"):
+            return [t[0], new] if t[1] == old else t
+        return [self.rename(c, old, new) if isinstance(c, list) else c for c in t]
+
+    def alt_names(self, rng, env, trees, p=0.3):
+        """with probability p the feature speed_2 of the track (and of the trees) goes under another name"""
+        if rng.random() >= p:
+            return trees
+        new = rng.choice(self.ALT_NAMES)
+        env["feats"] = [[new if k == "speed_2" else k, c] for k, c in env["feats"]]
+        return [self.rename(t, "speed_2", new) for t in trees]
 
     def subst_var(self, t, rng, names):
         """some variable leaves replaced by names defined by earlier statements"""
@@ -1019,6 +1088,7 @@ class P(Prop):
             if has_call_of_constant(t):
                 continue
             env = self.fix_env(self.rand_env(rng, easy=rng.random() < 0.4))
+            t, = self.alt_names(rng, env, [t])
             lhs = rng.choice([None, None, "c", "a", "b", "x", "y", "z"])
             c = self.mk_case(t, env, lhs, bare=rng.random() < 0.5, spaces=rng.random() < 0.2, stars=rng.random() < 0.2)
             if rng.random() < 0.2 and t[0] != "num":
@@ -1053,6 +1123,7 @@ class P(Prop):
             if has_call_of_constant(t):
                 continue
             env = self.fix_env(self.rand_env(rng, style="scaled" if rng.random() < 0.65 else "wide"))
+            t, = self.alt_names(rng, env, [t])
             lhs = rng.choice([None, None, "c", "a", "b", "x", "y"])
             c = self.mk_case(t, env, lhs, bare=rng.random() < 0.5, spaces=rng.random() < 0.1, stars=rng.random() < 0.1)
             if rng.random() < 0.2 and t[0] != "num":
@@ -1082,6 +1153,10 @@ class P(Prop):
                 t = self.subst_var(t, rng, defined)
             if has_call_of_constant(t) or any(has_call_of_constant(p["tree"]) for p in pre):
                 continue
+            trs = self.alt_names(rng, env, [t] + [p["tree"] for p in pre])
+            if trs[0] is not t:
+                t = trs[0]
+                pre = [{"lhs": p["lhs"], "tree": pt, "expr": self.mk_case(pt, env, p["lhs"], bare=rng.random() < 0.5)["expr"]} for p, pt in zip(pre, trs[1:])]
             c = self.mk_case(t, env, rng.choice([None, None, "c", "a", "x", "e"]), bare=rng.random() < 0.5)
             c["pre"] = pre
             if rng.random() < 0.3:
@@ -1181,7 +1256,11 @@ class P(Prop):
     def describe(self, case):
         t = {"kind": case["kind"]}
         if case["kind"] == "expr":
-            t["lhs"] = {None: "none", "c": "new", "a": "existing", "b": "existing"}.get(case["lhs"], "coordinate")
+            lhs = case["lhs"]
+            made = {k for k, _ in case["env"]["feats"]} | {p.get("lhs") for p in case.get("pre", ())}
+            t["lhs"] = "none" if lhs is None else ("coordinate" if lhs in ("x", "y", "z") else ("existing" if lhs in made else "new"))
+            t["names"] = "standard" if any(k == "speed_2" for k, _ in case["env"]["feats"]) else "other"
+            t["removed_before"] = len(case["env"].get("ghost", ()))
             t["depth"] = depth(case["tree"])
             t["n"] = case["env"]["n"]
             t["sign"] = "bare" if case["bare"] else "paren"
@@ -1189,6 +1268,7 @@ class P(Prop):
             t["via"] = case.get("via", "operate")
             t["earlier_statements"] = len(case.get("pre", ()))
             t["externals"] = len(case.get("ext", ()))
+            t["coords"] = case["env"].get("coords", "ENU")
         if case["kind"] == "op":
             t["form"] = case["form"]
         return t
@@ -1220,7 +1300,7 @@ class P(Prop):
                 status = err_kind(e)
             out = self.state(t)
             out["status"] = status
-            out["ret"] = canon_list(ret) if isinstance(ret, list) else (None if ret is None else "obj")
+            out["ret"] = None if ret is None else self.canon_seq(ret)
             return out
         if k == "rpn":
             return {"rpn": self.utils.makeRPN(case["s"])}
@@ -1264,7 +1344,7 @@ class P(Prop):
             if case["form"] == "agg":
                 out["ret"] = None if ret is None else canon(ret)
             else:
-                out["ret"] = canon_list(ret) if isinstance(ret, (list, tuple)) else None
+                out["ret"] = None if ret is None else self.canon_seq(ret)
             return out
         raise ValueError(k)
 
@@ -1408,16 +1488,9 @@ class P(Prop):
     def spec(self, case, out):
         if case.get("ext") and any(k in names_of_env(case["env"]) for k, _ in case["ext"]):
             return None      # an external named like a feature: which one wins is not stated anywhere (tie only: the model mirrors the code)
-        msg = self.judge(case, out)
-        if msg and case.get("kind") in ("expr", "op"):
-            cls = self.classify(case, out, msg)
-            if cls is not None and cls not in self.listed_classes():
-                # a discrepancy of a class reported by this check but not (yet) listed in known_findings.json: the engine
-                # excuses a class only when it is listed there, so until then the class is left unjudged (see QUIRKS)
-                return None
-        return msg
+        return self.judge(case, out)
 
-    def judge(self, case, out, quirks=()):
+    def judge(self, case, out):
         k = case["kind"]
         if k in ("malformed", "str"):
             return None
@@ -1429,13 +1502,17 @@ class P(Prop):
                 return "makeRPN(%r) = %s, the tree's postfix form is %s" % (case["s"], out["rpn"], want)
             return None
         if "err" in out:
-            return "harness could not run the case: %s" % out
+            # impl() catches everything the judged call raises; what escapes it comes from building the track
+            # (addObs / createAnalyticalFeature / removeAnalyticalFeature) or listing its features afterwards: the
+            # harness's own plumbing, not the property. Never a violation: the case is not judged (the correspondence
+            # reports it - the model has an output, the implementation side has none)
+            return None
         if has_call_of_constant(case["tree"]):
             return None                      # a function applied to a number: outside the grammar (domain restriction)
-        vals, divzero, undef = oracle(case, quirks)
+        vals, divzero, undef = oracle(case)
         if vals is None:
             return None                      # no value in ordinary arithmetic (documented domain restriction)
-        env = pre_env(case, quirks) if case.get("pre") else case["env"]
+        env = pre_env(case) if case.get("pre") else case["env"]
         if k == "op":
             if undef:
                 return None
@@ -1461,8 +1538,8 @@ class P(Prop):
         if lhs is None:
             m = vec_matches(out["ret"], vals, call)
             return m or self.unchanged(env, out)
-        if out["ret"] is not None:
-            return "%s returned %s instead of None" % (call, out["ret"])
+        # what operate returns for a statement with '=' is not part of the property (the code returns None; the
+        # correspondence with the model compares it, the oracle does not)
         if lhs in ("x", "y", "z"):
             m = vec_matches(out[lhs], vals, "coordinate %s after %r" % (lhs, expr))
             return m or self.unchanged(env, out, except_coord=lhs)
@@ -1470,40 +1547,13 @@ class P(Prop):
         return m or self.unchanged(env, out, except_name=lhs)
 
     # ---------------------------------------------------------------- known findings
-    # documented definition vs code (a class of known_findings.json):
-    #   reciprocal   x/number is coded x*(1.0/number) and number/x as (1.0/x)*number: when the reciprocal overflows
-    #                (|divisor| < 5.6e-309, a subnormal) the quotient comes out as inf / NaN although it is representable
-    # (ABS of an infinity, MIN/MAX/ARGMIN/ARGMAX beyond +-1e300 and Track['SUM{a}'] - classes of the previous round -
-    #  are repaired: 8378be5, 68863c7, 396f8f9; they are ordinary judged inputs, witnesses corpus/C02/fixed-*)
-    #   arg-start    ARGMIN / ARGMAX keep index 0 unless a value is strictly below +inf / above -inf: when the extremum of the
-    #                numbers is that infinity itself and observation 0 is NaN (or there is a NaN before it), the index
-    #                of a NaN comes back (residual of fix 68863c7; MIN / MAX themselves are right)
-    QUIRKS = {"reciprocal": "scalar-division-reciprocal-overflow", "arg-start": "argextremum-equal-to-start-value"}
-
+    # none. Every class this check once listed is repaired in /repo and is an ordinary judged input now; the witnesses
+    # are corpus regression cases (corpus/C02/fixed-*, d21-*, d22-*), run first on every run:
+    #   'a>(b+1)' 6716f85, 'x=3' 144a468, ABS of an infinity 8378be5, MIN/MAX/ARGMIN/ARGMAX beyond +-1e300 68863c7,
+    #   Track['SUM{a}'] 396f8f9, a/number and number/a through a reciprocal (overflow for a subnormal divisor) 5676890,
+    #   ARGMIN / ARGMAX when the extremum is the start value +-inf itself and a NaN precedes it b728412
     def classify(self, case, impl_out, msg):
-        """a failing case belongs to a class iff leaving exactly that discrepancy unjudged makes the oracle accept the
-        implementation's output ('a>(b+1)' (fix 6716f85) and 'x=3' (fix 144a468) are ordinary inputs now: witnesses
-        in corpus/C02/d21-*, d22-*)"""
-        if case.get("kind") not in ("expr", "op") or not msg or not isinstance(impl_out, dict) or "err" in impl_out:
-            return None
-        for q, name in self.QUIRKS.items():
-            try:
-                if self.judge(case, impl_out, quirks=(q,)) is None:
-                    return name
-            except Exception:
-                pass
         return None
-
-    _listed = None
-
-    def listed_classes(self):
-        if P._listed is None:
-            try:
-                with open(os.path.join(os.path.dirname(os.path.dirname(os.path.dirname(os.path.abspath(__file__)))), "known_findings.json")) as fh:
-                    P._listed = {e.get("class") for e in json.load(fh).get("entries", []) if e.get("property") == "C02" and e.get("status") == "finding"}
-            except Exception:
-                P._listed = set()
-        return P._listed
 
     # ---------------------------------------------------------------- shrinking / search
     def shrink(self, case):
@@ -1524,6 +1574,7 @@ class P(Prop):
             c = dict(case, tree=nt, **kw)
             if case["kind"] == "expr":
                 c["expr"] = self.render(c)
+                c = self.fit_via(c)
             else:
                 c["s"] = show_pre(nt)
             return c
@@ -1547,6 +1598,10 @@ class P(Prop):
             env = case["env"]
             if case.get("spaces") or case.get("stars"):
                 yield rebuilt(t, spaces=False, stars=False)
+            if env.get("ghost"):
+                yield rebuilt(t, env={k: v for k, v in env.items() if k != "ghost"})
+            if env.get("coords", "ENU") != "ENU":
+                yield rebuilt(t, env={k: v for k, v in env.items() if k != "coords"})     # does the class of the positions matter?
             if env["n"] > 1:
                 n = env["n"] - 1
                 e2 = dict(env, n=n, x=env["x"][:n], y=env["y"][:n], z=env["z"][:n], t=env["t"][:n],
@@ -1561,16 +1616,31 @@ class P(Prop):
                         f2[j] = [k, c2]
                         yield rebuilt(t, env=dict(env, feats=f2))
 
+    def fit_via(self, c):
+        """`Track[...]` looks a string without any of + - / * ^ > < ( ) = ' { up as a feature name: a number alone is not
+        an expression for that front end (rule: it is not sent through it) - such a candidate goes through operate"""
+        if c.get("via") == "getitem" and not any(ch in c["expr"] for ch in "+-/*^><()='{") and c["tree"][0] != "var":
+            c = {k: v for k, v in c.items() if k != "via"}
+        return c
+
     def mutate(self, case, rng):
         if case["kind"] == "expr" and not case.get("reflex"):
             for lhs in self.LHS:
                 for bare in (False, True):
                     c = dict(case, lhs=lhs, bare=bare)
                     c["expr"] = self.render(c)
-                    yield c
+                    yield self.fit_via(c)
             for s in subtrees(case["tree"]):
                 c = dict(case, tree=s)
                 c["expr"] = self.render(c)
-                yield c
+                yield self.fit_via(c)
+            # the same statement on the other classes of positions, writing each coordinate
+            cur = case["env"].get("coords", "ENU")
+            for coords in ("ENU", "Geo", "ECEF"):
+                for lhs in ("x", "y", "z"):
+                    if coords != cur or lhs != case.get("lhs"):
+                        c = dict(case, lhs=lhs, env=dict(case["env"], coords=coords))
+                        c["expr"] = self.render(c)
+                        yield self.fit_via(c)
         if case["kind"] in ("malformed", "op"):
             return
